@@ -396,6 +396,12 @@ class PEval:
             m = re.fullmatch(r"Byte\((\d+)\)", v)
             if m:
                 return int(m.group(1))
+            m = re.fullmatch(r'Float\("([^"]+)".*\)', v)
+            if m:
+                try:
+                    return float(m.group(1).replace("_", ""))
+                except ValueError:
+                    pass
             if v.startswith("ByteStr(["):
                 return [int(t) for t in re.findall(r"\d+", v.split("]")[0])]
             m = re.fullmatch(r"(-?\d+)(_?[iu](\d+|size))?", v)
@@ -658,7 +664,7 @@ class PEval:
         a = self.lib.adts.get(adt)
         if a is not None:
             return a.get("kind") == "enum"
-        return adt in (OPTION, ORDERING, RESULT, CONTROL_FLOW)
+        return adt in (OPTION, ORDERING, RESULT, CONTROL_FLOW, "core::num::FpCategory")
 
     def cond(self, e, env, depth):
         while e.get("k") in PASS:
@@ -698,6 +704,13 @@ class PEval:
                     return l > r
                 if op == "Ge":
                     return l >= r
+            if isinstance(l, float) and isinstance(r, float):
+                if op in ("Lt", "Le", "Gt", "Ge"):
+                    return {"Lt": l < r, "Le": l <= r, "Gt": l > r, "Ge": l >= r}[op]
+                if op in ("Add", "Sub", "Mul"):
+                    return {"Add": l + r, "Sub": l - r, "Mul": l * r}[op]
+                if op == "Div" and r != 0:
+                    return l / r
             if isinstance(l, int) and isinstance(r, int):
                 if op == "Add":
                     return l + r
@@ -771,9 +784,11 @@ class PEval:
             ty_from = self.lib.ty_str(self.lib.strip_refs(node["args"][0]["t"]))
             if ty_to == ty_from:
                 return deref(args[0])
-            cand = self.lib.fn("<%s as core::convert::From<%s>>::from" % (ty_to, ty_from))
-            if cand is not None and thir.body_of(cand):
-                return self.call_fn(cand, args, depth + 1)
+            raw_from = self.lib.ty_str(node["args"][0]["t"])
+            for tf in (ty_from, raw_from, "&" + ty_from, "&'static " + ty_from):
+                cand = self.lib.fn("<%s as core::convert::From<%s>>::from" % (ty_to, tf))
+                if cand is not None and thir.body_of(cand):
+                    return self.call_fn(cand, args, depth + 1)
         local = self.lib.fn(path)
         if (local is None or not thir.body_of(local)) and args and not path.startswith("<"):
             # a trait method called on `Self` / a generic: dispatch on the abstract receiver's type
@@ -971,7 +986,7 @@ class PEval:
                 return UNIT
             return self.unknown("%s with unknown slice" % fname)
         if isinstance(a0, list) and fname == "extend" and len(args) == 2:
-            other = args[1].rest() if isinstance(args[1], Iter) else args[1]
+            other = args[1].rest() if isinstance(args[1], Iter) else (args[1].items() if isinstance(args[1], (PySet, PyMap)) else args[1])
             if isinstance(other, list):
                 a0.extend(other)
                 return UNIT
@@ -1079,6 +1094,23 @@ class PEval:
                 return self.unknown("sort key")
         if fname == "partial_cmp" and len(args) == 2 and all(isinstance(x, int) for x in args):
             return some(ordering(args[0], args[1]))
+        if isinstance(a0, float) and ("f64" in path or "f32" in path):
+            import math
+            if fname == "is_nan":
+                return math.isnan(a0)
+            if fname == "is_infinite":
+                return math.isinf(a0)
+            if fname == "is_finite":
+                return math.isfinite(a0)
+            if fname == "is_sign_negative":
+                return math.copysign(1.0, a0) < 0
+            if fname == "is_sign_positive":
+                return math.copysign(1.0, a0) > 0
+            if fname == "classify":
+                cat = "Nan" if math.isnan(a0) else ("Infinite" if math.isinf(a0) else ("Zero" if a0 == 0 else "Normal"))
+                return Enum("core::num::FpCategory", cat)
+            if fname in ("abs", "floor", "ceil", "trunc", "fract", "round") and math.isfinite(a0):
+                return {"abs": abs(a0), "floor": float(math.floor(a0)), "ceil": float(math.ceil(a0)), "trunc": float(math.trunc(a0)), "fract": a0 - math.trunc(a0), "round": float(round(a0))}[fname]
         if all(isinstance(x, int) and not isinstance(x, bool) for x in args) and args:
             a_, b_ = args[0], (args[1] if len(args) > 1 else None)
             if b_ is not None:
@@ -1428,6 +1460,13 @@ class PEval:
                     return Iter(a0.split(x)) if x else self.unknown("split on empty pattern")
                 if fname == "matches":
                     return Iter([x] * a0.count(x)) if x else self.unknown("matches of empty pattern")
+            if fname == "parse" and len(args) == 1 and ret_t.startswith("core::result::Result<"):
+                inner = ret_t[len("core::result::Result<"):].split(",")[0].strip()
+                cand = self.lib.fn("<%s as core::str::traits::FromStr>::from_str" % inner)
+                if cand is not None and thir.body_of(cand):
+                    return self.call_fn(cand, [a0], depth + 1)
+                if inner in ("usize", "u32", "u64", "i32", "i64", "u8"):
+                    return ok(int(a0)) if a0.strip().lstrip("+").isdigit() else err(Struct("#ParseIntError", {}))
             if fname == "trim":
                 return a0.strip()
             if fname == "trim_start":
@@ -1452,6 +1491,44 @@ class PEval:
                     return a0[lo:hi]
             if fname == "cmp" and len(args) == 2 and isinstance(args[1], str):
                 return ordering(a0, args[1])
+        if fname == "from_iter" and len(args) == 1 and isinstance(a0, (Iter, list, PyMap, PySet)):
+            seq = a0.rest() if isinstance(a0, Iter) else (a0.items() if isinstance(a0, (PyMap, PySet)) else a0)
+            tgt = ret_t.split("<")[0] if ret_t else path[1:].split(" as ")[0].split("<")[0]
+            if any(t in tgt for t in MAP_TYPES) and all(isinstance(x, tuple) and len(x) == 2 for x in seq):
+                return PyMap(seq, sorted_="btree" in tgt)
+            if any(t in tgt for t in SET_TYPES):
+                return PySet(seq, sorted_="btree" in tgt)
+            if tgt == "alloc::string::String" and all(isinstance(x, (int, str)) and not isinstance(x, bool) for x in seq):
+                return "".join(chr(x) if isinstance(x, int) else x for x in seq)
+            return list(seq)
+        if fname in ("collect", "from_iter") and ret_t.startswith(("core::result::Result<", "core::option::Option<")):
+            seq = a0.rest() if isinstance(a0, Iter) else a0
+            if isinstance(seq, list) and all(isinstance(x, Enum) and x.adt in (RESULT, OPTION) for x in seq):
+                out = []
+                for x in seq:
+                    if x.variant in ("Err", "None"):
+                        return x
+                    out.append(x.fields.get("0", UNKNOWN))
+                inner_t = ret_t.split("<", 1)[1]
+                val = PySet(out) if any(t in inner_t.split("<")[0] for t in SET_TYPES) else out
+                return ok(val) if ret_t.startswith("core::result::Result<") else some(val)
+        # paths are modelled as plain text
+        if isinstance(a0, str) and ("std::path::" in path or "ffi::os_str" in path or "path::Path" in path):
+            if fname in ("new", "from", "to_path_buf", "to_string_lossy", "display", "as_os_str", "as_path", "into_os_string", "to_owned", "into_boxed_path", "as_ref"):
+                return a0
+            if fname == "to_str":
+                return some(a0)
+            if fname == "join" and len(args) == 2 and isinstance(args[1], str):
+                return args[1] if args[1].startswith("/") else (a0.rstrip("/") + "/" + args[1] if a0 else args[1])
+            if fname == "is_absolute":
+                return a0.startswith("/")
+            if fname == "file_name":
+                return some(a0.rstrip("/").rsplit("/", 1)[-1]) if a0.strip("/") else NONE
+            if fname == "extension":
+                base = a0.rsplit("/", 1)[-1]
+                return some(base.rsplit(".", 1)[1]) if "." in base.strip(".") else NONE
+            if fname == "parent":
+                return some(a0.rsplit("/", 1)[0]) if "/" in a0.rstrip("/") else (some("") if a0 else NONE)
         # collecting chars / strings into a String
         if fname == "collect" and ret_t == "alloc::string::String":
             seq = a0.rest() if isinstance(a0, Iter) else a0
